@@ -115,7 +115,12 @@ func instrRun(c *core.Ctx) {
 	for _, o := range ops {
 		byName[o.Name] = o
 	}
+	fixClock()
+	pristine := hashGlobals() // before any operation has run in this process
 	solo := soloResults(ops, c.Scratch)
+	if d := pristine.diff(hashGlobals()); len(d) > 0 && c.Shard == 0 {
+		c.Violate("frozen", "frozen."+strings.Join(d, ","), fmt.Sprintf("after running every operation once, package-level state %v differs from its value at process start: the package keeps mutable state between calls", d), FrozenCase{Ops: []string{"<all operations once>"}}, 0)
+	}
 	// solo results are deterministic? (run twice)
 	solo2 := soloResults(ops, c.Scratch)
 	for k := range solo {
